@@ -18,8 +18,8 @@ per channel, per connection list), then asks for round trips:
     conn <id> <d|s> <i|o> <child> <chan> (<child> <chan>)*   one connection list of composite <id>
     build <id>            current graph := the tree below <id>, a root
     descend <label>       current graph := that child, to be pickled on its own
-    pickle <r> <f> <p>    round trip with Cfg ⟨revIter, firing, pushLinks⟩; prints the observation
-    fileload <r> <f> <p> [cls]
+    pickle <r> <f> <p> <k>    round trip with Cfg ⟨revIter, firing, pushLinks, keepCache⟩; prints the observation
+    fileload <r> <f> <p> <k> [cls]
 -/
 
 structure Row where
@@ -127,10 +127,10 @@ partial def showNode (p : Path) : Node → List String
 def showErr : Err → String
   | .key => "key" | .runtime => "runtime" | .type => "type"
 
-def parseCfg (r f p : String) : Option Cfg :=
-  match parseBool r, parseBool f, parseBool p with
-  | some r, some f, some p => some ⟨r, f, p⟩
-  | _, _, _ => none
+def parseCfg (r f p k : String) : Option Cfg :=
+  match parseBool r, parseBool f, parseBool p, parseBool k with
+  | some r, some f, some p, some k => some ⟨r, f, p, k⟩
+  | _, _, _, _ => none
 
 def finish (s : St) : Except Err Node → St × List String
   | .ok n => ({ s with cur := some (n, none) }, showNode [] n)
@@ -228,16 +228,16 @@ def step (s : St) (ws : List String) : St × List String :=
       | some n => ({ s with cur := some (n, some (lexPath (c.forState pp).detached c.label)) }, ["descended"])
       | none => bad
     | _, _ => bad
-  | ["pickle", r, f, p] =>
-    match parseCfg r f p, s.cur with
+  | ["pickle", r, f, p, k] =>
+    match parseCfg r f p k, s.cur with
     | some cfg, some (n, pp) => finish s (load cfg (save pp n))
     | _, _ => bad
-  | ["fileload", r, f, p] =>
-    match parseCfg r f p, s.cur with
+  | ["fileload", r, f, p, k] =>
+    match parseCfg r f p k, s.cur with
     | some cfg, some (n, pp) => finish s (fileLoad cfg n.core.cls (save pp n))
     | _, _ => bad
-  | ["fileload", r, f, p, cls] =>
-    match parseCfg r f p, cls.toNat?, s.cur with
+  | ["fileload", r, f, p, k, cls] =>
+    match parseCfg r f p k, cls.toNat?, s.cur with
     | some cfg, some cls, some (n, pp) => finish s (fileLoad cfg cls (save pp n))
     | _, _, _ => bad
   | _ => bad
